@@ -127,7 +127,7 @@ Proof.
   { unfold net_block. f_equal. f_equal. apply net_load_ext. intros p Hp.
     pose proof net_loads_lt32 as H32. rewrite forallb_forall in H32.
     specialize (H32 p Hp). apply Nat.ltb_lt in H32.
-    rewrite coords_row by assumption. rewrite map_map. simpl.
+    rewrite coords_row by assumption. rewrite map_map. unfold f. cbv beta iota.
     symmetry. apply map_nth_seq_id. apply Hlen. assumption. }
   rewrite E, net_block_map, net_coords. unfold tcoords.
   rewrite map_map. apply map_ext. intros r. rewrite map_map. reflexivity.
